@@ -1,7 +1,11 @@
 """C10 — distribution-free p-boxes enclose every distribution meeting the constraints.
 
-proof  : Pun.Props.C10 (Markov / Cantelli / range-mean / median / mode bounds for every finite law,
-         extremal two-point laws, dispatcher table) about the functions of Pun.Model.Free
+proof  : Pun.Props.C10 — enclosure of every finite law by min_max, min_mean, max_mean, mean_std/mean_var, min_max_mean,
+         min_max_median, min_max_mean_std/var (all three components of the recurrence: Cantelli, Markov at the range
+         end, second-moment bound; totality of the repaired constructor), min_max_mode for every unimodal law
+         (distribution function convex below / concave above the mode); sharpness by the Markov / Cantelli two-point
+         laws and the two uniforms; the dispatcher table.  Pun.Props.C10Gen — the closed-form formulas regenerated
+         from pbox_free.py on every run (translator/free.py) are equal to the hand model's.
 tie    : the real constructors and `known_properties` vs the compiled model on the same inputs
          (square roots the code takes are computed here with the same numpy/Python calls and sent on the wire)
 oracle : exact-Fraction finite discrete laws (mixtures of uniforms for the mode shape) meeting the
